@@ -112,6 +112,8 @@ pub fn run(ctx: &Ctx, order: bool) -> Result<Evidence, String> {
     let mut docs: Vec<Doc> = small.iter().map(Doc::new).collect();
     docs.extend(gen::curated_docs().iter().map(Doc::new));
     docs.extend(wrong_kind_docs().iter().map(Doc::new));
+    // size-boundary documents get their own product with the boundary queries (below)
+    let bdocs: Vec<Doc> = gen::boundary_docs().iter().map(Doc::new).collect();
     let n_fixed_docs = docs.len();
     let cfg = gen::DocCfg::default();
     let n_rand_docs = ctx.tier.pick(600, 6000);
@@ -124,11 +126,26 @@ pub fn run(ctx: &Ctx, order: bool) -> Result<Evidence, String> {
     e1.extend(order_stress());
     let e1_texts: Vec<(Query, String)> = e1.into_iter().map(|q| { let t = render(&q, &mut Spelling::canonical()); (q, t) }).collect();
     let qcfg = gen::QueryCfg::default();
+    // names that need no escape or only \\ and \/ (decoded by the library), incl. non-ASCII
+    let mut qcfg_h = gen::QueryCfg::default();
+    qcfg_h.names = ["a\\b", "a/b", "\\", "/", "x y", "\u{e9}", "a.b", "[0]", "$", "@", "*", "0", "-1", "", "a", "\u{1f600}", "gr\u{f6}\u{df}e\\breite", "\u{446}\u{435}\u{43d}\u{430}/\u{448}\u{442}", "\u{e9}\\", "/\u{1f600}"].iter().map(|s| s.to_string()).collect();
+    let mut dcfg_h = gen::DocCfg::default();
+    dcfg_h.keys = qcfg_h.names.clone();
+    let hdocs_rand: Vec<Doc> = (0..ctx.tier.pick(150, 1500)).map(|_| Doc::new(&gen::random_doc(&mut rng, &dcfg_h))).collect();
 
     // family A: e1 queries x fixed docs (exhaustive product)
     let n_a = e1_texts.len() * n_fixed_docs;
     // family B: random queries x random docs
     let n_b = ctx.tier.pick(150_000, 3_000_000);
+    // family C: boundary queries (and a sample of the E1 family) x size-boundary documents
+    let mut bq: Vec<(Query, String)> = gen::boundary_queries().iter().map(|t| (analyze(t).ast.unwrap_or_else(|| panic!("boundary query does not parse: {}", t)), t.to_string())).collect();
+    for k in 0..e1_texts.len().min(400) {
+        bq.push(e1_texts[(k * 7919) % e1_texts.len()].clone());
+    }
+    let n_c0 = bq.len() * bdocs.len();
+    let hdocs: Vec<Doc> = gen::huge_docs().iter().map(Doc::new).collect();
+    let hq: Vec<(Query, String)> = gen::huge_queries().iter().map(|t| (analyze(t).ast.unwrap_or_else(|| panic!("huge query does not parse: {}", t)), t.to_string())).collect();
+    let n_c = n_c0 + hq.len() * hdocs.len();
     let seed = ctx.seed;
     let trace_every = 7usize;
 
@@ -141,11 +158,27 @@ pub fn run(ctx: &Ctx, order: bool) -> Result<Evidence, String> {
             text = t.clone();
             doc = &docs[i % n_fixed_docs];
             acc.count("family_exhaustive", 1);
+        } else if i >= n_a + n_b {
+            let k = i - n_a - n_b;
+            if k >= n_c0 {
+                let k = k - n_c0;
+                let (q, t) = &hq[k / hdocs.len()];
+                ast = q.clone();
+                text = t.clone();
+                doc = &hdocs[k % hdocs.len()];
+            } else {
+                let (q, t) = &bq[k / bdocs.len()];
+                ast = q.clone();
+                text = t.clone();
+                doc = &bdocs[k % bdocs.len()];
+            }
+            acc.count("family_size_boundaries", 1);
         } else {
             let k = i - n_a;
             let mut r = Rng::stream(seed, 1000 + k as u64);
-            ast = gen::random_query(&mut r, &qcfg);
-            let mut sp = if r.chance(3, 4) { Spelling::canonical() } else { Spelling::random(&mut r) };
+            let hostile = k % 5 == 4;
+            ast = gen::random_query(&mut r, if hostile { &qcfg_h } else { &qcfg });
+            let mut sp = if hostile || r.chance(3, 4) { Spelling::canonical() } else { Spelling::random(&mut r) };
             if r.chance(1, 2) {
                 sp.names = oracle::render::NameStyle::Shorthand;
             }
@@ -156,8 +189,13 @@ pub fn run(ctx: &Ctx, order: bool) -> Result<Evidence, String> {
                 sp.esc = oracle::render::EscStyle::Minimal;
             }
             text = render(&ast, &mut sp);
-            doc = &docs[n_fixed_docs + (r.below(n_rand_docs as u64) as usize)];
-            acc.count("family_random", 1);
+            doc = if hostile { &hdocs_rand[r.below(hdocs_rand.len() as u64) as usize] } else { &docs[n_fixed_docs + (r.below(n_rand_docs as u64) as usize)] };
+            acc.count(if hostile { "family_random_hostile_names" } else { "family_random" }, 1);
+        }
+        // multi-descendant queries on very deep or very large documents are polynomially
+        // expensive for library and reference alike; the size-boundary family keeps them out
+        if i >= n_a + n_b && (doc.j.depth() > 70 || doc.j.node_count() > 3000) && ast.segments.iter().filter(|s| s.descendant).count() + ast.segments.len() > 3 {
+            return;
         }
         parsed = analyze(&text);
         if parsed.ast.as_ref() != Some(&ast) {
@@ -273,14 +311,14 @@ pub fn run(ctx: &Ctx, order: bool) -> Result<Evidence, String> {
             Verdict::Violated(m) => ctx.violate(&m, judge::replay_json("query", &text, doc, &j)),
         }
     };
-    let acc = par_run(ctx, n_a + n_b, work);
+    let acc = par_run(ctx, n_a + n_b + n_c, work);
     if acc.counters.get("HARNESS_render_parse_mismatch").copied().unwrap_or(0) > 0 {
         return Err(format!("renderer and oracle parser disagree on {} generated queries", acc.counters["HARNESS_render_parse_mismatch"]));
     }
     let mut ev = Evidence::new(if order {
-        "cases = (query, document): exhaustive product of the E1 query family (<=2 segments over a 16-selector pool, child+descendant, unions) and the order-stress family with all small documents (<= N nodes over 7 leaves, keys a,b,c) + curated + wrong-kind documents; plus seeded random queries x random documents. Non-trivial = distinct (query text, document) whose RFC result has >= 2 distinct nodes."
+        "cases = (query, document): exhaustive product of the E1 query family (<=2 segments over a 16-selector pool, child+descendant, unions) and the order-stress family with all small documents (<= N nodes over 7 leaves, keys a,b,c) + curated + wrong-kind documents; plus seeded random queries x random documents; plus boundary queries x size-boundary documents (arrays/objects of 15..1000 members, strings of 0..1000 characters from many Unicode ranges, nests of depth 16..127, integers around 2^53 and the i64 limits). Non-trivial = distinct (query text, document) whose RFC result has >= 2 distinct nodes."
     } else {
-        "cases = (query, document) as for C02. Non-trivial = distinct (query text, document) whose RFC result is non-empty. Nodes are identified by address -> location (independent walk), compared as multisets with the reference evaluator's nodelist."
+        "cases = (query, document) as for C02 (incl. the size-boundary family). Non-trivial = distinct (query text, document) whose RFC result is non-empty. Nodes are identified by address -> location (independent walk), compared as multisets with the reference evaluator's nodelist."
     });
     ev.set("exhaustive", json!(false));
     ev.set("exhaustive_family", json!({"queries": e1_texts.len(), "documents": n_fixed_docs, "small_docs_max_nodes": ctx.tier.pick(3, 4), "small_docs": n_small, "product_enumerated_completely": true}));
